@@ -595,6 +595,11 @@ func genC09Plan(r *zsim.Rng) *sysPlan {
 	if r.Chance(2, 3) {
 		p.Events = append(p.Events, sysEvent{Kind: "keys", Keys: pick(r, "enter", "enter", "f5", "f6"), DelayMs: r.Intn(20)})
 	}
+	if r.Chance(1, 4) {
+		// the clock fzf reads may be coarse: selections made by one action, or by keys in quick succession, then
+		// carry the same instant
+		p.ClockGrain = []int{8, 64, 100000}[r.Intn(3)]
+	}
 	return p
 }
 
